@@ -321,6 +321,9 @@ pub fn run(ctx: &Ctx, which: u8) -> (Spec, Report) {
         let items = gen_items(&mut rng, which);
         let its: Vec<Item> = items.iter().map(|w| w.item.clone()).collect();
         let source = render_file(&its, &[], &[], &RenderOpts { vary: true, prelude: false, strip_typeshare: false }, &mut rng);
+        // a quarter of the programs in a layout rustfmt would not produce (attribute behind another attribute or a
+        // block comment, everything on one line, CRLF + tabs): names and keys must not depend on it
+        let source = if rng.chance(1, 4) { relayout(&source, rng.range(1, 4)) } else { source };
         let mut cfgs = vec![];
         for l in ALL_LANGS {
             let mut c = LangCfg::basic(l);
